@@ -364,7 +364,7 @@ pub fn check_case(ctx: &mut Ctx, ps: &mut Parsers, case: &Case) {
 
 /// letters of 2, 3 and 4 bytes, a combining sequence, multi-byte white space (2 and 3 bytes), multi-byte punctuation,
 /// a zero-width character
-const MULTIBYTE: &[&str] = &["é", "€", "😀", "e\u{301}", "\u{a0}", "\u{3000}", "¿", "\u{200b}"];
+const MULTIBYTE: &[&str] = &["é", "€", "😀", "e\u{301}", "\u{a0}", "\u{3000}", "¿", "\u{200b}", "[-é-]", " -- é\n", "\\é"];
 
 /// insert each multi-byte char at every token boundary of `seed` in turn
 pub fn multibyte_sweep(seed: &str, mut f: impl FnMut(String)) {
@@ -444,7 +444,7 @@ pub fn run(ctx: &mut Ctx) {
     {
         const FM_LINES: &[&str] = &[
             "title: Café", "note: é", "x: 😀😀", "k: 漢字 ok", "prep time: 1 h", "cook time: 5 min", "time: 2 h", "servings: a|b", "locale: zz_",
-            "tags: [a, a]", "author: <x>", "time: x", "\"servings\": 2|2", "source: {a: 1}",
+            "tags: [a, a]", "author: <x>", "time: x", "\"servings\": 2|2", "source: {a: 1}", "\u{a0}time: 10 min", "\u{3000}servings: a|b", "",
         ];
         let maxlen = if ctx.is_thorough() { 5 } else { 4 };
         let total = alphabet::count_upto(FM_LINES.len(), maxlen);
